@@ -143,8 +143,6 @@ func refServerEcho(sid *[]byte, allowed [][]byte) func(nc net.Conn, cfg *refpeer
 func goServerEcho(scfg *ssh.ServerConfig, sid *[]byte) func(nc net.Conn) error {
 	return func(nc net.Conn) error {
 		var mu sync.Mutex
-		cb := scfg.PublicKeyCallback
-		_ = cb
 		info, err := serveGoEchoSID(nc, scfg, func(id []byte) {
 			mu.Lock()
 			if sid != nil {
@@ -152,7 +150,12 @@ func goServerEcho(scfg *ssh.ServerConfig, sid *[]byte) func(nc net.Conn) error {
 			}
 			mu.Unlock()
 		})
-		_ = info
+		if info.handshook {
+			if info.execs > 0 {
+				return nil // the session was served; how the connection ended does not matter
+			}
+			return fmt.Errorf("COMPLETED-HANDSHAKE then: %v", err)
+		}
 		return err
 	}
 }
@@ -173,11 +176,7 @@ func serveGoEchoSID(nc net.Conn, cfg *ssh.ServerConfig, onSID func([]byte)) (*go
 			return nil, nil
 		}
 	}
-	info, err := serveGoEcho(nc, &c2)
-	if err != nil && (errors.Is(err, io.EOF) || strings.Contains(err.Error(), "disconnected by user") || strings.Contains(err.Error(), "closed")) && info.execs > 0 {
-		err = nil // connection ended after the session was served
-	}
-	return info, err
+	return serveGoEcho(nc, &c2)
 }
 
 func refClientExec(n int, key refpeer.HostKey, sid *[]byte) func(nc net.Conn, cfg *refpeer.Config) error {
@@ -357,7 +356,10 @@ func c29ValidCases() []c29Case {
 			a, b := refpeer.Pipe()
 			var ssid, csid []byte
 			errc := make(chan error, 2)
-			go func() { errc <- goServerEcho(goServerCfg(kex, goHostSigner(ha, "pipe"), userKeys[0]), &ssid)(b); b.Close() }()
+			go func() {
+				errc <- goServerEcho(goServerCfg(kex, goHostSigner(ha, "pipe"), userKeys[0]), &ssid)(b)
+				b.Close()
+			}()
 			go func() { errc <- goClientEcho(goClientCfg(kex, ha, userKeys[0]), 2000, &csid)(a); a.Close() }()
 			done := make(chan struct{})
 			var e1, e2 error
@@ -396,7 +398,7 @@ func expectGoClientRejects(what, kex, algo string, cfg refpeer.Config, ccfg *ssh
 	if hasType(lo.refIn, refpeer.MsgNewKeys) {
 		return fmt.Sprintf("%s: the Go client sent NEWKEYS (took the keys into use) although it reports %v", what, lo.goErr), ""
 	}
-	if !hasType(lo.refOut, 31) && !hasType(lo.refOut, 33) {
+	if want := byte(map[bool]int{true: 33, false: 31}[strings.Contains(kex, "group-exchange")]); !hasType(lo.refOut, want) {
 		return "", fmt.Sprintf("%s: refpeer never sent its kex reply (ref err %v, go err %v)", what, lo.refErr, lo.goErr)
 	}
 	return "", ""
@@ -408,11 +410,15 @@ func expectGoServerRejects(what, kex, algo string, cfg refpeer.Config) (string, 
 	if lo.stalled {
 		return "", fmt.Sprintf("%s: stalled (go=%v ref=%v)", what, lo.goErr, lo.refErr)
 	}
-	if lo.goErr == nil {
-		return fmt.Sprintf("%s: the Go server completed the handshake", what), ""
+	if lo.goErr == nil || strings.Contains(lo.goErr.Error(), "COMPLETED-HANDSHAKE") {
+		return fmt.Sprintf("%s: the Go server completed the handshake (%v)", what, lo.goErr), ""
 	}
+	if len(lo.refIn) == 0 {
+		return "", fmt.Sprintf("%s: refpeer saw no packet at all (ref err %v, go err %v)", what, lo.refErr, lo.goErr)
+	}
+	gex := strings.Contains(kex, "group-exchange")
 	for _, t := range lo.refIn[1:] { // [0] is the server's KEXINIT
-		if t == 31 || t == 33 || t == refpeer.MsgNewKeys {
+		if (t == 31 && !gex) || t == 33 || t == refpeer.MsgNewKeys { // for DH-GEX 31 is the group, 33 the reply
 			return fmt.Sprintf("%s: the Go server answered with packet type %d (computed a secret / switched keys) although it reports %v", what, t, lo.goErr), ""
 		}
 	}
@@ -530,7 +536,7 @@ type badValue struct {
 func c29DHBadValues(p *big.Int) []badValue {
 	one := big.NewInt(1)
 	pm1 := new(big.Int).Sub(p, one)
-	k0, k1, kp := []byte(nil), []byte{1}, refpeer.MpintContent(pm1)
+	k0, k1, kp := []byte{}, []byte{1}, refpeer.MpintContent(pm1) // k0: K = 0 has empty mpint content
 	return []badValue{
 		{"0", nil, [][]byte{k0}},
 		{"1", []byte{1}, [][]byte{k1}},
@@ -556,15 +562,13 @@ var lowOrder25519 = []string{
 
 func c29X25519BadValues() []badValue {
 	var out []badValue
+	zeroK := [][]byte{{}} // a low-order point yields the all-zero secret: K = 0, empty mpint content
 	for i, h := range lowOrder25519 {
 		b := unhex(h)
-		out = append(out, badValue{fmt.Sprintf("low-order-%d", i), b, [][]byte{nil /* K = 0 -> empty mpint */}})
+		out = append(out, badValue{fmt.Sprintf("low-order-%d", i), b, zeroK})
 		t := append([]byte{}, b...)
 		t[31] |= 0x80
-		out = append(out, badValue{fmt.Sprintf("low-order-%d+topbit", i), t, [][]byte{nil}})
-	}
-	for i := range out {
-		out[i].ks = [][]byte{{}} // all-zero shared secret: mpint content is empty
+		out = append(out, badValue{fmt.Sprintf("low-order-%d+topbit", i), t, zeroK})
 	}
 	out = append(out,
 		badValue{"len31", make([]byte, 31), [][]byte{nil}},
@@ -670,6 +674,9 @@ func c29InvalidCases() []c29Case {
 					}
 					return c
 				}}
+				if extra != nil {
+					extra(cfg.Ext)
+				}
 				return expectGoServerRejects(fmt.Sprintf("invalid %s %s=%s", kex, cliField, v.label), kex, algo, cfg)
 			}})
 		}
@@ -680,7 +687,8 @@ func c29InvalidCases() []c29Case {
 	}{{"diffie-hellman-group1-sha1", 1024}, {"diffie-hellman-group14-sha1", 2048}, {"diffie-hellman-group14-sha256", 2048}, {"diffie-hellman-group16-sha512", 4096},
 		{"diffie-hellman-group-exchange-sha1", 2048}, {"diffie-hellman-group-exchange-sha256", 2048}} {
 		for _, v := range c29DHBadValues(refpeer.MODP(g.bits)) {
-			addPair(g.kex, "dh", v, "f", "e", nil)
+			// DH-GEX: the values are relative to the 2048-bit group, so the refpeer client asks for exactly that size
+			addPair(g.kex, "dh", v, "f", "e", func(e *refpeer.Ext) { e.GexRequest = &[3]uint32{2048, 2048, 2048} })
 		}
 	}
 	for _, kex := range []string{"curve25519-sha256", "curve25519-sha256@libssh.org"} {
@@ -785,14 +793,20 @@ func c29InvalidCases() []c29Case {
 					}
 					return "", ""
 				}
-				v, inc := expectGoClientRejects(what, kex, algo, cfg, nil)
-				if v == "" && inc == "" {
-					return "", ""
+				lo := runLink(goClientEcho(goClientCfg(kex, algo, nil), 10, nil), refServerEcho(nil, nil), cfg)
+				if lo.stalled {
+					return "", what + ": stalled"
 				}
-				if inc != "" && strings.Contains(inc, "never sent its kex reply") {
-					return "", "" // the Go client left before sending KEX_DH_GEX_INIT: rejected at the group
+				if lo.goErr == nil || strings.Contains(lo.goErr.Error(), "COMPLETED") {
+					return what + ": the Go client completed the handshake", ""
 				}
-				return v, inc
+				if hasType(lo.refIn, refpeer.MsgKexDHGexInit) || hasType(lo.refIn, refpeer.MsgNewKeys) {
+					return fmt.Sprintf("%s: the Go client accepted the group (it went on to send KEX_DH_GEX_INIT) and only failed later with %v", what, lo.goErr), ""
+				}
+				if !hasType(lo.refOut, refpeer.MsgKexDHGexGroup) {
+					return "", fmt.Sprintf("%s: refpeer never sent the group (%v)", what, lo.refErr)
+				}
+				return "", ""
 			}})
 		}
 	}
@@ -950,7 +964,6 @@ func TestC29(t *testing.T) {
 	cases = append(cases, c29ValidCases()...)
 	cases = append(cases, c29SignatureCases()...)
 	cases = append(cases, c29InvalidCases()...)
-	sort.SliceStable(cases, func(i, j int) bool { return false })
 	var mine []c29Case
 	for i, k := range cases {
 		if ev.Mine(i) {
